@@ -96,6 +96,22 @@ SCOPES = [
     "{S}", "if q:\n{I}", "if q:\n    q = 1\nelse:\n{I}", "while q < 3:\n    q += 1\n{I}", "for i in range(2):\n{I}", "def fn1():\n{I}\n    return 1", "while True:\n{I}", "while True:\n    if q:\n{II}", "try:\n{I}\nexcept Exception:\n    q = 0",
 ]
 
+# long / repetitive texts that stress the line-oriented regexes and the recursive descent of every parser involved
+_DOTTED = ".".join(["pkg", "errors", "exceptions", "transport", "serial"] * 6) + ".DeviceNotRespondingError"
+STRESS = [
+    _DOTTED, _DOTTED + " or TimeoutError", _DOTTED + "() as err2", _DOTTED + ", " + _DOTTED, "(" + _DOTTED + ", ValueError)", _DOTTED + "[0]", _DOTTED + " if q else " + _DOTTED,
+    "a" * 5000, "a " * 2000, "a, " * 1500 + "a", "a." * 400 + "a", "(" * 40 + "1" + ")" * 40, "[" * 40 + "1" + "]" * 40, '"' + "a" * 20000 + '"', "'" + "\\'" * 500 + "'",
+    "q" + " and q" * 800, "-" * 3000 + "1", "-" * 100000 + "1", "not " * 1000 + "q", "q" + " if q else q" * 300, "q" + ".real" * 600, "q" + "[0]" * 600, "f(" * 100 + "1" + ")" * 100,
+    "lambda: " * 200 + "1", "1" + " < 2" * 1500, "q" + " " * 20000 + "+ 1", "q" + "\t" * 5000 + "+ 1", "1 +" + " \\\n" * 300 + "1", "x" * 200 + "=" * 200, ":" * 300, "#" * 5000, "1" + "e1" * 300,
+    "\"" * 999, "'" * 999, "f\"" + "{q}" * 2000 + "\"", "f\"" + "{" * 60 + "q" + "}" * 60 + "\"", "q" + " == q" * 1000, "*" * 500 + "q", "~" * 5000 + "1", "q" + ",q" * 5000,
+]
+STRESS_POSITIONS = [
+    "if {X}:\n    q = 1", "if q:\n    q = 1\nelif {X}:\n    q = 2", "while {X}:\n    q = 1\n    break", "for i in range({X}):\n    q = i", "for {X} in range(2):\n    q = 1",
+    "try:\n    q = 1\nexcept {X}:\n    q = 2", "try:\n    q = 1\nexcept {X} as err:\n    q = 2", "def fq({X}):\n    return 1", "def {X}():\n    return 1", "led.blink({X})", "x = {X}", "{X} = 1",
+    "target({X})", "{X}", "# {X}", "q = 1  # {X}", "from {X} import y", "import {X}", "class {X}:\n    pass", "global {X}", "return {X}", "led.{X}()", "{X}.toggle()", "sv2 = Servo({X})", "lcd.line(0, {X})",
+    "while True:\n    {X}", "x = [{X}]", "x = y[{X}]", "with {X}:\n    pass", "@{X}\ndef fd():\n    return 1", "del {X}", "assert {X}", "x: {X} = 1",
+]
+
 NOISE_ALPHABET = ["(", ")", "[", "]", "{", "}", ":", "=", ",", ".", "'", '"', "#", "\\", " ", "\t", "\n", "a", "1", "f"]
 
 
@@ -128,6 +144,14 @@ def gen(tier: str) -> Iterator[dict]:
     }
     for name, body in growth.items():
         yield {"id": f"G:{name}", "kind": "growth", "src": base + body}
+    # build directives that mention the host: the result may not depend on HOME / the user database / the cwd
+    ports = ["~", "~/dev/ttyUSB0", "~root/dev/tty", "~nosuchuser/x", "$HOME/tty", "${HOME}/tty", "%TEMP%", "./tty", "../tty", "tty", "/dev/~", "~~", "COM3"]
+    for qi, port in enumerate(ports):
+        for fi, form in enumerate(('target("{P}")', 'target(port="{P}")', "target('{P}')", 'target("{P}", upload=False)', 'x = 1\ntarget("{P}")', 'led3 = Led(13)  # target("{P}")')):
+            yield {"id": f"E:{qi}:{fi}", "kind": "env", "env_probe": True, "src": "from Reduino import target\n" + form.replace("{P}", port) + "\nfrom Reduino.Actuators import Led\nled = Led(13)\nled.on()\n"}
+    for pi, pos in enumerate(STRESS_POSITIONS):
+        for xi, text in enumerate(STRESS):
+            yield {"id": f"R:{pi}:{xi}", "kind": "stress", "src": base + pos.replace("{X}", text) + "\n"}
     whole = 4 if tier == "thorough" else 3
     inner = 3 if tier == "thorough" else 2
     for n in range(1, whole + 1):
@@ -162,6 +186,8 @@ def classify(case: dict, rec: dict) -> Optional[str]:
         return f"took {rec['wall']}s (> {TIME_LIMIT}s)"
     if rec.get("state_changed"):
         return "module-level state of the transpiler changed"
+    if rec.get("env_dependent"):
+        return f"the result depends on the host environment (HOME / user / working directory): {rec['env_dependent']}"
     return None
 
 
